@@ -174,6 +174,13 @@ fn walker_builder(
     for root in directories.iter().skip(1) {
         walker_builder.add(root);
     }
+    #[cfg(feature = "verif-hooks")]
+    if let Some(threads) = std::env::var("TYPESHARE_VERIF_THREADS")
+        .ok()
+        .and_then(|t| t.parse().ok())
+    {
+        walker_builder.threads(threads);
+    }
     Ok(walker_builder)
 }
 
